@@ -2,6 +2,7 @@ package main
 
 import (
 	"bufio"
+	"encoding/json"
 	"fmt"
 	"os"
 	"os/exec"
@@ -31,6 +32,34 @@ func runSelfTest(prop, repo, verifd string) []selfVariant {
 	var out []selfVariant
 	dirs, _ := filepath.Glob(filepath.Join(verifd, "seeded", prop+"*"))
 	sort.Strings(dirs)
+	// behaviour-preserving refactorings (benign/): the property's own, and those
+	// that once raised an alarm of this property although written for another
+	benign := map[string]bool{}
+	own, _ := filepath.Glob(filepath.Join(verifd, "benign", prop+"-*"))
+	sort.Strings(own)
+	var bdirs []string
+	bdirs = append(bdirs, own...)
+	if data, err := os.ReadFile(filepath.Join(verifd, "benign", "CROSS.json")); err == nil {
+		var cross map[string][]string
+		if json.Unmarshal(data, &cross) == nil {
+			for _, id := range cross[prop] {
+				d := filepath.Join(verifd, "benign", id)
+				dup := false
+				for _, x := range bdirs {
+					if x == d {
+						dup = true
+					}
+				}
+				if !dup {
+					bdirs = append(bdirs, d)
+				}
+			}
+		}
+	}
+	for _, d := range bdirs {
+		benign[d] = true
+	}
+	dirs = append(dirs, bdirs...)
 	for _, d := range dirs {
 		id := filepath.Base(d)
 		patch := filepath.Join(d, "patch.rebased.diff")
@@ -42,6 +71,11 @@ func runSelfTest(prop, repo, verifd string) []selfVariant {
 			continue
 		}
 		v := selfVariant{ID: id}
+		if benign[d] {
+			v.ID = "benign/" + id
+			v.Status = "neutralised"
+			v.Note = "behaviour-preserving refactoring; must NOT fire"
+		}
 		if meta, err := os.ReadFile(filepath.Join(d, "meta.json")); err == nil && strings.Contains(string(meta), "\"status_on_fixed_tree\": \"neutralised") {
 			v.Status = "neutralised"
 			v.Note = "no longer breaks the property on the repaired tree (see meta.json); must NOT fire"
